@@ -179,8 +179,11 @@ class FakeOptions(object):
     def write(self, fd, data):
         return self.stdin_pipes[fd].write(data)
 
+    kill_fails = False
+
     def kill(self, pid, sig):
-        pass
+        if self.kill_fails:
+            raise OSError(errno.EPERM, 'operation not permitted')
 
     def stat(self, filename):
         import os
@@ -342,12 +345,27 @@ class Pool(object):
         p.stop()
         return True
 
+    def op_stopfail(self, i):
+        """stop() while the kernel refuses the signal (EPERM): the process ends in state UNKNOWN, pid kept"""
+        p = self.procs[i]
+        if not p.pid or p.state not in (ProcessStates.RUNNING, ProcessStates.STARTING):
+            return False
+        self.options.kill_fails = True
+        try:
+            p.stop()
+        finally:
+            self.options.kill_fails = False
+        assert p.state == ProcessStates.UNKNOWN and not p.killing
+        return True
+
     def op_finish(self, i, last, w, quick):
         p = self.procs[i]
         st = p.state
         if not p.pid:
             return False
-        if p.killing:
+        if st == ProcessStates.UNKNOWN:
+            ok = True
+        elif p.killing:
             ok = st == ProcessStates.STOPPING
         elif quick:
             ok = st == ProcessStates.STARTING
